@@ -42,12 +42,10 @@ Proof. exact csv_table_universal. Qed.
 Print Assumptions C20_csv_text_file.
 
 (* column names and dictionary keys *)
-Set Warnings "-abstract-large-number".
 Theorem C20_column_names :
   (forall s, name_of_key (key_of_name s) = s) /\
-  (forall k, (match k with KDE n => n < 10000 | KOther _ => False | _ => True end) -> key_of_name (name_of_key k) = k).
+  (forall k, (match k with KDE n => (N.of_nat n < 10000)%N | KOther _ => False | _ => True end) -> key_of_name (name_of_key k) = k).
 Proof. exact (conj name_of_key_of_name key_of_name_of_key). Qed.
-Set Warnings "abstract-large-number".
 Print Assumptions C20_column_names.
 
 (* the round trip computes on the text of the example table of props/C20.v, blocked and unblocked *)
